@@ -138,7 +138,7 @@ def potential_body(c):
 def correspond(ctx):
     strength = "thorough" if ctx.tier == "thorough" else "quick"
     ab.start_search(ctx, "c17_impl.py", {"mode": "search", "strength": strength, "seed": ctx.seed})
-    res = ctx.run_impl("c17_impl.py", {"mode": "corr", "strength": strength, "seed": ctx.seed}, timeout=1500)
+    res = ctx.run_impl("c17_impl.py", {"mode": "corr", "strength": strength, "seed": ctx.seed}, timeout=1500, threads=ab.THREADS)
     if res is None:
         return
     bodies = [("c17b%d" % i, boundary_body(c)) for i, c in enumerate(res["boundary"])] + \
